@@ -113,7 +113,41 @@ def crc_pointer_sites(files):
     return out, ctor
 
 
-def lean_text(wsites, ssites, crc, ctor):
+def signal_sites(src):
+    """(function, owner of the condition variable: pool / rq / thr, enclosing if/else/while headers) for every
+    pthread_cond_signal(&x->c) of threadpool.c, in source order"""
+    import access_sites as A
+    src = strip_comments(src)
+    out = []
+    for name, params, body in A.functions(src):
+        vt = A.var_types(params, body)
+        stack = []; i = 0; last = 0
+        while i < len(body):
+            ch = body[i]
+            if ch == "{":
+                stack.append(body[last:i].strip()); last = i + 1
+            elif ch == "}":
+                if stack:
+                    stack.pop()
+                last = i + 1
+            elif ch == ";":
+                st = body[last:i + 1]
+                m = re.search(r"pthread_cond_signal\s*\(\s*&\s*([\w>-]+?)->c\s*\)", st)
+                if m:
+                    ty = A.type_of(m.group(1), vt)
+                    if ty is None:
+                        raise ExtractError("%s: cannot type the owner of the condition variable %r" % (name, m.group(1)))
+                    pre = st[:m.start()].strip()
+                    guards = [re.sub(r"\s+", " ", h) for h in stack if re.match(r"(if|else|while|for)\b", h)]
+                    if re.match(r"(if|else|while)\b", pre):
+                        guards.append(re.sub(r"\s+", " ", pre))
+                    out.append((name, A.LOCKNAME.get(ty, str(ty)), " && ".join(guards).replace('"', "'")))
+                last = i + 1
+            i += 1
+    return out
+
+
+def lean_text(wsites, ssites, crc, ctor, signals=()):
     L = ["/- GENERATED by translators/gen.py from mtbl/writer.c, mtbl/sorter.c, libmy/crc32c*.c, mtbl/*.c — do not edit.",
          "   writerSites / sorterSites: every access to a field of struct mtbl_writer / mtbl_sorter, in source order per function;",
          "   `locks` holds the pool context (\"pool\" / \"nopool\") of the enclosing `if (x->pool != NULL)` branch;",
@@ -129,6 +163,8 @@ def lean_text(wsites, ssites, crc, ctor):
     L.append("def crcPointerWrites : List (String × String × String) := [" +
              ", ".join('("%s", "%s", "%s")' % x for x in crc) + "]")
     L.append("def crcDetectionIsConstructor : Bool := %s" % ("true" if ctor else "false"))
+    L.append("/-- every pthread_cond_signal of threadpool.c: (function, whose condition variable, enclosing if/else/while headers) -/")
+    L.append("def signalSites : List (String × String × String) := [" + ", ".join('("%s", "%s", "%s")' % x for x in signals) + "]")
     L += ["", "end Mtbl.Generated", ""]
     return "\n".join(L)
 
